@@ -202,12 +202,29 @@ def r_order(r, prog):
             cs = [c for c in g.calls() if c.name() in ('visit_with', 'into_iter') and re.search(r'\.%s\b' % fld, _normalise_accessors(prog, g, c))]
             if not cs:
                 cs = [c for c in g.calls() if c.name() in ('call_mut', 'call', 'call_once') and len(c.args) > 1 and re.search(r'\.%s\b' % fld, vexpr(g, c.args[1], depth=24))]
+            if not cs and owner != 'Operation':
+                # collected into a list that is then walked front to back: the order of the visits is the order of the entries
+                sites = _field_ref_sites(g, fld)
+                if sites:
+                    firsts.append([('ref', x) for x in sites])
+                    continue
             if not cs:
                 r.finding('order-anchor:%s.%s' % (owner, fld), g.span, '%s.%s is not traversed' % (owner, fld))
                 break
             firsts.append(cs)
         else:
             a, b = firsts
+            if a and isinstance(a[0], tuple) or b and isinstance(b[0], tuple):
+                if a and b and isinstance(a[0], tuple) and isinstance(b[0], tuple) and len(a) == 1 and len(b) == 1:
+                    (ba, ja), (bb_, jb) = a[0][1], b[0][1]
+                    first = (ba == bb_ and ja < jb) or (ba != bb_ and g.dominates(ba, bb_))
+                    if first:
+                        r.ok('%s: %s is put into the list before %s (the list is walked front to back)' % (owner, fields[0], fields[1]))
+                    else:
+                        r.finding('visit-order:%s' % owner, g.span, '%s: %s is not collected before %s' % (owner, fields[0], fields[1]))
+                else:
+                    r.finding('visit-order:%s' % owner, g.span, '%s: %s and %s are traversed in different ways' % (owner, fields[0], fields[1]))
+                continue
             a0 = min(a, key=lambda c: len(g.dominators().get(c.bb, ())))
             b0 = min(b, key=lambda c: len(g.dominators().get(c.bb, ())))
             back = any(x.bb in g.reachable(y.bb) and x.bb != y.bb for x in a for y in b)
@@ -217,6 +234,38 @@ def r_order(r, prog):
                 r.finding('visit-order:%s' % owner, g.span, '%s: %s is not visited before %s on every path' % (owner, fields[0], fields[1]))
     r.floor(3)
 
+
+
+def _field_ref_sites(t, fld):
+    """(bb, j) of the statements that take a reference to <payload>.<fld> (a nested type reference put into a list)"""
+    out = []
+    for bb, j, lhs, rv, st in t.assigns():
+        if rv['k'] == 'ref' and not t.blocks[bb].get('cleanup'):
+            names = [x.get('n') for x in rv['p'].get('p', []) if isinstance(x, dict) and 'f' in x]
+            if names and names[-1] == fld:
+                out.append((bb, j))
+    return out
+
+
+def _collected_then_visited_where_written(prog, t, sw, tgt, fld, rets):
+    """third form of the same traversal: the arm puts a reference to the nested type into a list, and one loop over that list recurses into
+    every element whose span lies inside the span of the reference being visited (same file, start >=, end <=)"""
+    import guards as _g
+    others = [x for k, x in sw['arms'].items() if x != tgt] + ([sw['otherwise']] if sw['otherwise'] != tgt else [])
+    region = t.reachable(tgt, blocked=others)
+    if not [x for x in _field_ref_sites(t, fld) if x[0] in region]:
+        return False
+    rec = [c for c in t.calls() if c.name() == 'visit_with' and c.resolved == t.path and not t.blocks[c.bb].get('cleanup') and loop_of(t, c.bb) is not None
+           and re.match(r'^next\(into_iter\(.*\)\) as Some\.0$', vexpr(t, c.args[0]))]
+    if len(rec) != 1 or len(t.natural_loops()) != 1:
+        return False
+    head = loop_of(t, rec[0].bb)[0]
+    elem = re.escape(vexpr(t, rec[0].args[0]))
+    gs = [g for g in _g.guard_set(prog, t, rec[0].bb) if not _g._LOOP_HAS_NEXT.match(g) and not re.search(r'definition is not Unpatched$', g)]
+    comp = {'eq': 'ne', 'ge': 'lt', 'le': 'gt'}
+    body = lambda op, f_: r'%s\(span\(%s\)\.%s,span\(arg1\)\.%s\)' % (op, elem, f_, f_)
+    pat = lambda op, f_: any(re.match('^' + body(op, f_) + '$', g) or re.match(r'^!\(' + body(comp[op], f_) + r'\)$', g) for g in gs)
+    return len(gs) == 3 and pat('eq', 'file') and pat('ge', 'start') and pat('le', 'end') and must_pass(t, tgt, rets, [head])
 
 
 def _descends_when_written_here(prog, t):
@@ -276,6 +325,8 @@ def r_typeref(r, prog):
                 r.ok('Types::%s: direct recursion into %s' % (v['n'], fld))
             elif len(via) == 1 and must_pass(t, tgt, rets, [via[0].bb]) and _descends_when_written_here(prog, t):
                 r.ok('Types::%s: recursion into %s where it is written inside the reference being visited' % (v['n'], fld))
+            elif not cs and not via and _collected_then_visited_where_written(prog, t, sw, tgt, fld, rets):
+                r.ok('Types::%s: %s is collected and every collected reference is recursed into where it is written inside the reference being visited' % (v['n'], fld))
             else:
                 r.finding('nested-type-not-visited:%s.%s' % (v['n'], fld), t.span, 'TypeRef::visit_with does not recurse exactly once into %s of %s on every path' % (fld, v['n']))
     q = [c for c in t.calls() if c.name() in ('push_back', 'pop_front', 'push', 'pop', 'push_front', 'pop_back', 'extend')]
